@@ -1,6 +1,7 @@
 package main
 
 import (
+	"bytes"
 	"math/rand"
 
 	"github.com/ldclabs/cose/key"
@@ -21,9 +22,17 @@ func execCbor(op string, a []string) string {
 		if err := key.UnmarshalCBOR(unhx(a[0]), &v); err != nil {
 			return "err"
 		}
+		// what the decoder accepts, the well-formedness check accepts (it is the weaker test), and what the library
+		// re-encodes it accepts again
+		if key.ValidCBOR(unhx(a[0])) != nil {
+			return "VALIDCBOR-REFUSES-WHAT-DECODES"
+		}
 		out, err := key.MarshalCBOR(v)
 		if err != nil {
 			return "err-reencode"
+		}
+		if key.ValidCBOR(out) != nil || !bytes.Equal(key.MustMarshalCBOR(v), out) {
+			return "VALIDCBOR-REFUSES-OWN-ENCODING"
 		}
 		return "ok " + hx(out)
 	case "cbor.enc":
